@@ -14,8 +14,7 @@ Fixpoint any_sub (p : bool -> ty -> bool) (inter : bool) (t : ty) : bool :=
   | TMap _ i v => any_sub p inter i || any_sub p inter v
   | TStruct _ _ fs => existsb (fun f => any_sub p inter (f_type f)) fs
   | TInter _ bs => existsb (any_sub p true) bs
-  | TEnum _ vs => existsb (fun v => any_sub p inter (ev_type v)) vs
-  | _ => false
+  | _ => false      (* enum member types are scalar types in every front-end: not a position *)
   end.
 
 Definition children (t : ty) : list (bool * ty) :=   (* (inside allOf?, child) *)
@@ -25,7 +24,6 @@ Definition children (t : ty) : list (bool * ty) :=   (* (inside allOf?, child) *
   | TMap _ i v => [(false, i); (false, v)]
   | TStruct _ _ fs => map (fun f => (false, f_type f)) fs
   | TInter _ bs => map (fun b => (true, b)) bs
-  | TEnum _ vs => map (fun v => (false, ev_type v)) vs
   | _ => []
   end.
 Definition any_below (p : bool -> ty -> bool) (t : ty) : bool :=
